@@ -1198,11 +1198,11 @@ func ssStagedCorrupt(t *testing.T, qcap int, res *ssResult) {
 }
 
 // ssStagedBacklog: magnitudes the small TLC constants do not reach. One polling round consumes a backlog of N elements
-// (N up to 5000 with the default-sized queue of 8192: the consumer was held up while the producer kept flushing), the
+// (N up to 8100 with the default-sized queue of 8192: the consumer was held up while the producer kept flushing), the
 // consumer goes idle, the producer enqueues once more: the element must be notified and consumed (C05), every message
 // arrives in order (C04/C07), every buffer comes back (C09).
 func ssStagedBacklog(t *testing.T, res *ssResult) {
-	for _, n := range []int{300, 5000} {
+	for _, n := range []int{300, 5000, 8100} {
 		name := fmt.Sprintf("backlog/%d-elements-in-one-polling-round", n)
 		viol := func(prop, kind, detail string) {
 			res.Violations = append(res.Violations, ssViolation{Property: prop, Kind: kind, Detail: name + ": " + detail, Schedule: "staged " + name, QCap: 8192, NStreams: 1})
